@@ -81,19 +81,30 @@ ItemWhy(it, d) ==
   ELSE IF it.k = "upd" /\ it.int.v > d.allowed THEN "size-update-above-allowed"
   ELSE ""
 
-RECURSIVE Eval(_, _, _, _, _)
-Eval(items, d, seen, gray, acc) ==
+\* Emission (Decoder.SetEmitEnabled): mode "on"; "off" = disabled for the whole block; "off1" = the
+\* consumer disables it from inside the emit callback after the first field (what the HTTP/2 layer
+\* does when a header list grows too large).  Fields are only handed out while emission is on; the
+\* dynamic table must evolve exactly as if it were on ("keeping in-sync with decoder state").
+\* Documented leniency (hpack.go readString): with emission off, Huffman errors in strings of
+\* literals that are NOT indexed may go unreported - either outcome is accepted there.
+StrErrItem(it) == IsLit(it) /\ ((it.int.v = 0 /\ StrErr(it.name)) \/ StrErr(it.value))
+RECURSIVE Eval(_, _, _, _, _, _, _)
+Eval(items, d, seen, gray, acc, emit, mode) ==
   IF items = <<>> THEN [kind |-> IF gray THEN "either" ELSE "ok", fields |-> acc, why |-> "", d |-> d]
   ELSE LET it == Head(items)
            w == ItemWhy(it, d) IN
-    IF w # "" THEN [kind |-> "err", fields |-> acc, why |-> w, d |-> d]
+    IF w # "" /\ ~emit /\ it.k \in {"lit", "nev"} /\ StrErrItem(it)
+              /\ IntClass(PrefixN(it.k), it.int) # "err" /\ (it.int.v = 0 \/ ValidIndex(d.tab, it.int.v))
+      THEN Eval(Tail(items), d, TRUE, TRUE, acc, emit, mode)          \* the leniency: error or silently skipped
+    ELSE IF w # "" THEN [kind |-> "err", fields |-> acc, why |-> w, d |-> d]
     ELSE LET r == DecodeRep(d, RepOf(it)) IN
       \* ItemWhy covers every error DecodeRep knows
       Eval(Tail(items), r.d, seen \/ it.k # "upd",
            \* 4.2 / 6.3: a size update after a field of the same block - the RFC obliges the encoder,
            \* not the decoder; rejecting and applying are both in use
            gray \/ (it.k = "upd" /\ seen) \/ IntClass(PrefixN(it.k), it.int) = "either",
-           acc \o r.out)
+           IF emit THEN acc \o r.out ELSE acc,
+           IF mode = "off1" /\ emit /\ r.out # <<>> THEN FALSE ELSE emit, mode)
 
 \* the dynamic table before the block under test: two entries (index 62 = b: a, 63 = a: ab)
 S(h, syms, pad) == [h |-> h, syms |-> syms, pad |-> pad]
@@ -102,7 +113,7 @@ NoStr == S(FALSE, <<>>, "ok")
 Preamble == << [k |-> "inc", int |-> I(0, 0), name |-> S(FALSE, <<1>>, "ok"), value |-> S(FALSE, <<1, 2>>, "ok")],
                [k |-> "inc", int |-> I(0, 0), name |-> S(TRUE, <<2>>, "ok"), value |-> S(FALSE, <<1>>, "ok")] >>
 D00 == [tab |-> <<>>, max |-> 4096, allowed |-> 4096]
-D0 == Eval(Preamble, D00, FALSE, FALSE, <<>>).d
+D0 == Eval(Preamble, D00, FALSE, FALSE, <<>>, TRUE, "on").d
 RECURSIVE SerAll(_, _)
 SerAll(items, over) == IF items = <<>> THEN <<>>
                        ELSE SerItem(Head(items), IF Len(items) = 1 THEN over ELSE 0) \o SerAll(Tail(items), over)
@@ -119,7 +130,7 @@ PVerdict(b) ==
       need(k) == CumLen(b.items, k) + (IF k = n THEN b.over ELSE 0)
       done == {k \in 0..n : need(k) <= avail}
       m == CHOOSE k \in done : \A j \in done : j <= k
-      e == Eval(SubSeq(b.items, 1, m), D0, FALSE, FALSE, <<>>) IN
+      e == Eval(SubSeq(b.items, 1, m), D0, FALSE, FALSE, <<>>, b.em # "off", b.em) IN
     IF e.kind = "err" THEN e
     ELSE IF CumLen(b.items, m) = avail THEN e                       \* the cut falls on an item boundary
     ELSE [e EXCEPT !.kind = "err", !.why = "truncated"]             \* an incomplete item remains: Close fails
@@ -159,14 +170,16 @@ ChOfOct(o) == HuffSyms[CHOOSE i \in 1..NSym : HuffSyms[i].oct = o].ch
 RECURSIVE RawStr(_)
 RawStr(octs) == IF octs = <<>> THEN "" ELSE ChOfOct(Head(octs)) \o RawStr(Tail(octs))
 
-MReadStr(buf) ==
+\* want = FALSE: the string is skipped, not decoded (wantStr in the code)
+MReadStr(buf, want) ==
   IF buf = <<>> THEN MoreR
   ELSE LET li == MReadInt(7, buf) IN
     IF li.st # "ok" THEN li
     ELSE IF Len(li.rest) < li.v THEN MoreR
     ELSE LET octs == SubSeq(li.rest, 1, li.v)
              rest == SubSeq(li.rest, li.v + 1, Len(li.rest)) IN
-      IF buf[1] < 128 THEN [st |-> "ok", s |-> RawStr(octs), rest |-> rest]
+      IF ~want THEN [st |-> "ok", s |-> "", rest |-> rest]
+      ELSE IF buf[1] < 128 THEN [st |-> "ok", s |-> RawStr(octs), rest |-> rest]
       ELSE LET hd == MHuff(Bits(octs), "") IN
         IF hd.st = "err" THEN ErrR ELSE [st |-> "ok", s |-> hd.s, rest |-> rest]
 
@@ -174,7 +187,7 @@ KindOf(b) == IF b >= 128 THEN "idx" ELSE IF b >= 64 THEN "inc" ELSE IF b >= 32 T
              ELSE IF b >= 16 THEN "nev" ELSE "lit"
 
 \* one representation off the front of buf: [st, d, out, rest]
-MParseItem(buf, d) ==
+MParseItem(buf, d, emit) ==
   LET k == KindOf(buf[1])
       ri == MReadInt(PrefixN(k), buf) IN
   IF ri.st # "ok" THEN ri
@@ -182,9 +195,10 @@ MParseItem(buf, d) ==
     LET r == DecodeRep(d, [k |-> k, i |-> ri.v, n |-> "", v |-> ""]) IN
       IF r.err THEN ErrR ELSE [st |-> "ok", d |-> r.d, out |-> r.out, rest |-> ri.rest]
   ELSE IF ri.v # 0 /\ ~ValidIndex(d.tab, ri.v) THEN ErrR
-  ELSE LET rn == IF ri.v = 0 THEN MReadStr(ri.rest) ELSE [st |-> "ok", s |-> "", rest |-> ri.rest] IN
+  ELSE LET want == emit \/ k = "inc"
+           rn == IF ri.v = 0 THEN MReadStr(ri.rest, want) ELSE [st |-> "ok", s |-> "", rest |-> ri.rest] IN
     IF rn.st # "ok" THEN rn
-    ELSE LET rv == MReadStr(rn.rest) IN
+    ELSE LET rv == MReadStr(rn.rest, want) IN
       IF rv.st # "ok" THEN rv
       ELSE LET r == DecodeRep(d, [k |-> k, i |-> ri.v, n |-> rn.s, v |-> rv.s]) IN
         IF r.err THEN ErrR ELSE [st |-> "ok", d |-> r.d, out |-> r.out, rest |-> rv.rest]
@@ -193,18 +207,21 @@ MParseItem(buf, d) ==
 RECURSIVE MLoop(_, _)
 MLoop(o, buf) ==
   IF buf = <<>> THEN [o EXCEPT !.saved = <<>>]
-  ELSE LET r == MParseItem(buf, o.d) IN
+  ELSE LET r == MParseItem(buf, o.d, o.emit) IN
     IF r.st = "more" THEN [o EXCEPT !.saved = buf]
     ELSE IF r.st = "err" THEN [o EXCEPT !.err = TRUE, !.saved = <<>>]
-    ELSE MLoop([o EXCEPT !.d = r.d, !.out = o.out \o r.out], r.rest)
+    ELSE MLoop([o EXCEPT !.d = r.d, !.out = IF o.emit THEN o.out \o r.out ELSE o.out,
+                          !.emit = IF o.mode = "off1" /\ o.emit /\ r.out # <<>> THEN FALSE ELSE o.emit], r.rest)
 MWrite(o, chunk) == IF chunk = <<>> \/ o.err THEN o ELSE MLoop(o, o.saved \o chunk)
 MClose(o) == IF o.saved # <<>> THEN [o EXCEPT !.err = TRUE] ELSE o
-MRun(bytes, k) == MClose(MWrite(MWrite([d |-> D0, saved |-> <<>>, out |-> <<>>, err |-> FALSE],
+MObj(d, mode) == [d |-> d, saved |-> <<>>, out |-> <<>>, err |-> FALSE, emit |-> mode # "off", mode |-> mode]
+MRun(bytes, k, mode) == MClose(MWrite(MWrite(MObj(D0, mode),
                                         SubSeq(bytes, 1, k)), SubSeq(bytes, k + 1, Len(bytes))))
 
-Agree(pv, o) == CASE pv.kind = "ok" -> ~o.err /\ o.out = pv.fields
+\* the table after an accepted block is part of the verdict (judged through index references)
+Agree(pv, o) == CASE pv.kind = "ok" -> ~o.err /\ o.out = pv.fields /\ o.d.tab = pv.d.tab
                   [] pv.kind = "err" -> o.err
-                  [] OTHER -> o.err \/ o.out = pv.fields
+                  [] OTHER -> o.err \/ (o.out = pv.fields /\ o.d.tab = pv.d.tab)
 
 \* ---------------------------------------------------------------- the blocks explored
 CONSTANTS Tier,        \* "quick" | "thorough"
@@ -245,7 +262,8 @@ HuffItems == {Lit("lit", I(2, 0), NoStr, S(TRUE, s, p)) :
                 s \in SymSeqs(HuffLen), p \in {"ok", "ones8", "zeros", "mixed"}}
 HuffOK(it) == PadApplies(it.value.syms, it.value.pad)
 
-Block(items, over, cut) == [items |-> items, over |-> over, cut |-> cut]
+Block(items, over, cut) == [items |-> items, over |-> over, cut |-> cut, em |-> "on"]
+Em(b, m) == [b EXCEPT !.em = m]
 HasStr(it) == IsLit(it)
 
 VARIABLES blk, phase
@@ -260,6 +278,9 @@ Derived(b) ==
        {Block(<<it>>, 0, c) : c \in {x \in 1..(IF Q THEN 2 ELSE 3) : x <= Len(SerItem(it, 0))}}
        \cup (IF HasStr(it) THEN {Block(<<it>>, 1, 0)} ELSE {})
        \cup {Block(<<it, it2>>, 0, 0) : it2 \in Menu2}
+       \* emission disabled / disabled by the consumer after the first field
+       \cup {Em(Block(<<it>>, 0, 0), m) : m \in {"off", "off1"}}
+       \cup {Em(Block(<<it, it2>>, 0, 0), m) : it2 \in {x \in Menu2 : HasStr(it) \/ HasStr(x)}, m \in {"off", "off1"}}
        \cup (IF Q THEN {} ELSE {Block(<<it, it2>>, 0, 1) : it2 \in Menu}
                                \cup {Block(<<it, it2>>, 1, 0) : it2 \in {x \in Menu : HasStr(x)}})
 Next == phase = 0 /\ phase' = 1 /\ blk' \in Derived(blk)
@@ -268,8 +289,8 @@ Next == phase = 0 /\ phase' = 1 /\ blk' \in Derived(blk)
 BytesOK == \A i \in 1..Len(Bytes(blk)) : Bytes(blk)[i] \in 0..255
 MInP == LET bs == Bytes(blk)
             pv == PVerdict(blk) IN
-          \A k \in 0..Len(bs) : Agree(pv, MRun(bs, k))
+          \A k \in 0..Len(bs) : Agree(pv, MRun(bs, k, blk.em))
 \* the preamble is itself a valid block leaving two entries
-PreOK == Len(D0.tab) = 2 /\ Agree([kind |-> "ok", fields |-> Eval(Preamble, D00, FALSE, FALSE, <<>>).fields],
-                                   MClose(MWrite([d |-> D00, saved |-> <<>>, out |-> <<>>, err |-> FALSE], PreBytes)))
+PreOK == Len(D0.tab) = 2 /\ Agree([kind |-> "ok", d |-> D0, fields |-> Eval(Preamble, D00, FALSE, FALSE, <<>>, TRUE, "on").fields],
+                                   MClose(MWrite(MObj(D00, "on"), PreBytes)))
 ==========================================================================
